@@ -161,7 +161,7 @@ def parse_rvalue(s):
         return ('cast', parse_operand(m.group(1)), m.group(2), m.group(3))
     if re.match(r'^(no_retag )?(copy|move|const) ', s):
         return ('use', parse_operand(s))
-    m = re.match(r'^&(mut |raw const |raw mut |fake shallow |fake deep )?(.*)$', s)
+    m = re.match(r'^&(mut |raw const \(fake\) |raw const |raw mut |fake shallow |fake deep )?(.*)$', s)
     if m and (m.group(2).startswith('_') or m.group(2).startswith('(')):
         kind = (m.group(1) or '').strip()
         return ('ref', kind, parse_place_full(m.group(2)))
